@@ -1,8 +1,26 @@
 package main
 
-import "encoding/json"
+import (
+	"encoding/json"
+	"fmt"
+)
 
 func replayOther(sc, path, prop, kind, class string, raw json.RawMessage) int {
+	switch kind {
+	case "c13":
+		var rp c13Replay
+		if err := json.Unmarshal(raw, &rp); err != nil {
+			fatalHarness("replay: %v", err)
+		}
+		tw := buildToolWorld(sc)
+		cl, msg := replayC13(tw, &rp)
+		if cl != "" {
+			fmt.Printf("VIOLATION property=%s replay=%s\n  reproduced: class=%s %s\n", prop, path, cl, msg)
+			return 1
+		}
+		fmt.Printf("replay %s: not reproduced\n", path)
+		return 0
+	}
 	fatalHarness("replay: unknown kind %q", kind)
 	return 2
 }
